@@ -561,3 +561,60 @@ func Replay(spec Spec, rp *evidence.Replay) int {
 	fmt.Printf("VIOLATION property=%s replay=%s\n", rp.Property, os.Getenv("VERIF_REPLAY_PATH"))
 	return 1
 }
+
+// Digest runs the first n generated cases under k seeded tapes each and returns a digest of everything the
+// simulator returned (tapes, histories, outputs, endings). It must not depend on the number of workers, on
+// GOMAXPROCS or on the run: `./check selftest` compares it across such settings.
+func Digest(spec Spec, n, k int) (string, error) {
+	if spec.SimCfg == nil {
+		spec.SimCfg = DefaultSimCfg
+	}
+	e, err := Open(spec, spec.Workers)
+	if err != nil {
+		return "", err
+	}
+	defer e.Close()
+	parts := make([]string, n)
+	var wg sync.WaitGroup
+	var mu sync.Mutex
+	var firstErr error
+	sem := make(chan struct{}, spec.Workers)
+	for i := 0; i < n; i++ {
+		wg.Add(1)
+		go func(i int) {
+			defer wg.Done()
+			sem <- struct{}{}
+			defer func() { <-sem }()
+			c := spec.Generate(spec.Seed, len(spec.Curated)+i)
+			if c == nil {
+				parts[i] = "discarded"
+				return
+			}
+			cfg := spec.SimCfg(rng.New(spec.Seed, spec.Property, "simcfg", i))
+			runs := make([]simpool.Run, k)
+			for j := range runs {
+				runs[j] = simpool.Run{Seed: rng.Derive(spec.Seed, spec.Property, "tape", i, j)}
+			}
+			res, err := e.RunCase(i, c, cfg, runs)
+			if err != nil {
+				mu.Lock()
+				firstErr = err
+				mu.Unlock()
+				return
+			}
+			b, _ := json.Marshal(res)
+			verdicts := ""
+			for j := range res {
+				if v := c.Judge(&res[j]); v != nil {
+					verdicts += v.Class + ";"
+				}
+			}
+			parts[i] = evidence.Digest(string(c.JSON()), string(b), verdicts)
+		}(i)
+	}
+	wg.Wait()
+	if firstErr != nil {
+		return "", firstErr
+	}
+	return evidence.Digest(parts...), nil
+}
